@@ -153,9 +153,9 @@ Proof. vm_compute. repeat split; reflexivity. Qed.
 (* with ABSOLUTE normalised input and output paths the script (from any directory, package installed anywhere) and the
    client read the same input file, give the same outcome and write the report to exactly the requested path *)
 Theorem C20_hip_entry_points_agree :
-  forall (hrun : string -> hsim) (cwd pkg pkg' : string) (pin pout : path),
+  forall (hrun : string -> hsim) (cwd cwd' pkg pkg' : string) (pin pout : path),
   wf_abs pin = true -> wf_abs pout = true ->
-  hip_script hrun cwd pkg (to_str pin) (Some (to_str pout)) true = hip_client hrun pkg' (to_str pin) (to_str pout) true
+  hip_script hrun cwd pkg (to_str pin) (Some (to_str pout)) true = hip_client hrun cwd' pkg' (to_str pin) (to_str pout) true
   /\ (forall rep, hrun (fs_canon (to_str pin)) = HOk rep ->
         hip_script hrun cwd pkg (to_str pin) (Some (to_str pout)) true
         = {| ho_raises := false; ho_report_at := Some (to_str pout); ho_text := Some rep |}).
@@ -204,9 +204,49 @@ Print Assumptions C20_hip_exit_partial.
 Theorem C20_hip_exit_refuted :
   exists (hrun : string -> hsim), forall cwd pkg inp out,
     hip_status (hip_script hrun cwd pkg inp out false) = 0%Z /\ ho_report_at (hip_script hrun cwd pkg inp out false) = None
-    /\ ho_raises (hip_client hrun pkg inp "/tmp/r.out" false) = true.
+    /\ ho_raises (hip_client hrun cwd pkg inp "/tmp/r.out" false) = true.
 Proof. exact hip_exit_counterexample. Qed.
 Print Assumptions C20_hip_exit_refuted.
+
+(* ================= the input file the clients read (fix fa4a753) ================= *)
+
+(* the same relative input path from the same directory names the same file for the command line and for
+   GeophiresXClient: both hand main() the path made absolute in the caller's directory, so the chdir into the package
+   cannot redirect it *)
+Theorem C20_input_file_agrees : forall cwd pkg pkg' inp : string, forall (out : option string) (out' : string),
+  wf_abs (parse cwd) = true ->
+  input_file pkg (cli_argv cwd inp out) = absolute cwd inp /\ input_file pkg' (client_argv cwd inp out') = absolute cwd inp.
+Proof. exact input_file_agrees. Qed.
+Print Assumptions C20_input_file_agrees.
+
+(* before the fix the client passed the path on as given and main() opened it relative to the package directory *)
+Theorem C20_input_file_pinned_refuted :
+  exists cwd pkg inp out, wf_abs (parse cwd) = true /\ wf_abs (parse pkg) = true /\
+    input_file pkg (client_argv_pinned inp out) <> absolute cwd inp /\ input_file pkg (client_argv_pinned inp out) = "/pkg/in.txt".
+Proof. exact input_file_pinned_counterexample. Qed.
+Print Assumptions C20_input_file_pinned_refuted.
+
+(* HipRaXClient with a relative input path built in cwd reads cwd/inp - the same run as with the absolute path, from
+   anywhere, whatever the package directory ... *)
+Theorem C20_hip_client_relative_input :
+  forall (hrun : string -> hsim) (cwd cwd' pkg pkg' inp : string) (pout : path),
+  wf_abs (parse cwd) = true -> wf_abs pout = true ->
+  hip_client hrun cwd pkg inp (to_str pout) true = hip_client hrun cwd' pkg' (absolute cwd inp) (to_str pout) true
+  /\ h_input (hip_files pkg [""; absolute cwd inp; to_str pout]) = absolute cwd inp.
+Proof. exact hip_client_relative. Qed.
+Print Assumptions C20_hip_client_relative_input.
+
+(* ... which the client before the fix did not (it looked in the package directory and raised) *)
+Theorem C20_hip_client_pinned_refuted :
+  exists (hrun : string -> hsim) cwd pkg inp out,
+    ho_raises (hip_client hrun cwd pkg inp out true) = false /\ ho_raises (hip_client_pinned hrun pkg inp out true) = true.
+Proof. exact hip_client_pinned_counterexample. Qed.
+Print Assumptions C20_hip_client_pinned_refuted.
+
+Example C20_example_input_file :
+  input_file "/pkg" (client_argv "/w/d1" "../in.txt" "/tmp/o.out") = "/w/d1/../in.txt" /\ wf_abs (parse "/w/d1") = true
+  /\ fs_canon "/w/d1/../in.txt" = "/w/in.txt".
+Proof. vm_compute. repeat split; reflexivity. Qed.
 
 Example C20_example_hip :
   hip_files "/repo/src/hip_ra_x" [""; "/w/in.txt"; "/w/o.out"] = {| h_input := "/w/in.txt"; h_report := "/w/o.out" |}
